@@ -114,6 +114,8 @@ def seq_actions():
         for e in ENGINES:
             for p in PREFIXES if k == "direct" else ("p", LONG):
                 acts.append((k, e, p))
+    for e in ("e1", "s"):
+        acts.append(("recreate", e, "p"))  # drop the engine (garbage) and continue with a fresh one of the same kind
     return acts
 
 
@@ -133,6 +135,15 @@ def _seq_work(prefixes):
                 out = []
                 _KEEP_ALIVE.clear()
                 for k, e, p in hist:
+                    if k == "recreate":
+                        old = engines.pop(e)
+                        _KEEP_ALIVE.clear()
+                        del old
+                        import gc
+
+                        gc.collect()
+                        engines[e] = iteration.Engine(name=e) if e != "s" else sql.Engine(name=e)
+                        continue
                     _request(k, engines[e], p, out, fresh)
                 n += 1
                 for kind, detail in judge(out):
